@@ -21,5 +21,7 @@ def run(chk):
     from . import misc_contracts
     misc_contracts.models_transitions(chk, "C09")   # incl. publish order: what _create_result reads without a lock is consistent after every single store
     from . import batch_accessors
+    from . import c20
+    c20.strict_error_roundtrip(chk, "C09")   # "the same batch result is delivered when the call is replayed": a failed item's error survives the record exactly
     chk.assume("S: a comprehension [E(x) for x in xs if P(x)] is the in-order filter-map of xs; sum(1 for ..) counts; any(..) is the disjunction; next(gen, None) is the first element or None")
     batch_accessors.accessors(chk, "C09")   # how user code reads the reported branches: succeeded()/failed()/started()/get_results()/get_errors()/counts/status/throw_if_error
